@@ -234,9 +234,7 @@ def fee_model_rules(rep, F):
                 rep.violation("BATCH-gate", "TxBatchBuilder::build|push", "a proposal is kept without testing get_need_ada() after the final fee pass: UTxO A = 1.2 ADA + 10 tok, UTxO B = 101 000 lovelace -> create_send_all returns Ok with outputs + fee 1 067 lovelace above the inputs (every B in 100 483 .. 102 066)", {})
 
 
-def check(rep, F, tier, replay=None):
-    cddl = common.load_table("conway_cddl.json")
-    inv = Inventory(F)
+def size_head_rule(rep, F, cddl):
     # ---- SIZE-head ----------------------------------------------------------------------------------------------------------
     rep.rule("SIZE-head", "CborCalculator::get_struct_size equals the CBOR head-size table on the whole u64 domain (exact interval comparison); get_tag_size, get_coin_size and get_wrapped_struct_size are built on it (tag 258)")
     fid = find_fn(rep, F, "CborCalculator::get_struct_size")
@@ -260,6 +258,12 @@ def check(rep, F, tier, replay=None):
         tags = lit_args_of(F, f2, "get_tag_size")
         if tags != [cddl["tags"]["set"]]:
             rep.violation("SIZE-head", "wrapped|tag %s" % tags, "the set wrapper is sized with tag %s, sets are written with tag %d" % (tags, cddl["tags"]["set"]), {})
+
+
+def check(rep, F, tier, replay=None):
+    cddl = common.load_table("conway_cddl.json")
+    inv = Inventory(F)
+    size_head_rule(rep, F, cddl)
     # ---- SIZE-wrapped -------------------------------------------------------------------------------------------------------
     rep.rule("SIZE-wrapped", "get_bare_tx_body_size treats a body field as tag-258 wrapped exactly when the field's type is one of the set types the writers tag")
     fid = find_fn(rep, F, "CborCalculator::get_bare_tx_body_size")
@@ -375,6 +379,8 @@ def check(rep, F, tier, replay=None):
     arith_unused_rule(rep, F, ["src/builders/batch_tools/", "src/builders/tx_batch_builder.rs"])
     from ruleutil import batch_total_rule
     batch_total_rule(rep, F)
+    from ruleutil import boot_size_real_rule
+    boot_size_real_rule(rep, F)
     from ruleutil import boot_size_each_rule
     boot_size_each_rule(rep, F)
     return rep.finish(EXPLANATION, ["the categorizer stores the address parameter unchanged (AssetCategorizer::new / TxOutputProposal::new clone it)"], ["csl-facts driver (HIR/MIR)", "tables/conway_cddl.json (set types, tag 258)", "E2 writer tables"])
